@@ -20,6 +20,9 @@ fn contents_small(rng: &mut Rng, n: usize, max_len: usize, hint: Hint, packs: u1
         .collect()
 }
 
+/// The image whose big indexed value store the pinned tree cannot read back (see below).
+pub const UNREADABLE_STORE_IMAGE: &str = "indexed-store-tail-above-64KiB-loose-none";
+
 /// Deterministic list of images for a seed and tier. F-flavour images keep every pack's
 /// contents on one route (all raw or all compressed) so that creation with one worker is
 /// deterministic (see DESIGN.md 2.7).
@@ -274,6 +277,39 @@ pub fn grid(seed: u64, tier: Tier) -> Vec<(String, Logical)> {
             opts: Default::default(),
         };
         out.push(("huge-values-loose-none".to_string(), logical));
+    }
+    // an indexed value store whose offset table alone exceeds 64 KiB (22 000 distinct keys). The
+    // pinned tree writes it with a tail size truncated to 16 bits and cannot read the keys back
+    // (a round-trip defect under C02, not claimed): the image is not required to read back as
+    // its model says. Thorough tier, C05 only (it takes most of a minute to build). It is here so that whatever does read is compared once damaged - a later
+    // version that reads such stores has to verify them too.
+    if tier == Tier::Thorough {
+        let mut rng = Rng::derive(seed, "grid-bigindexed", k);
+        let n = 22_000;
+        let contents: Vec<ContentSpec> = (0..n)
+            .map(|i| ContentSpec {
+                bytes: Arc::new(gen_bytes(&mut rng, i, 1, Flavor::Constant)),
+                hint: Hint::No,
+                src: SrcKind::Cursor,
+                pack: 1,
+            })
+            .collect();
+        let logical = Logical {
+            comp: Comp::None,
+            packaging: Packaging::Loose,
+            n_packs: 1,
+            contents,
+            schema: SchemaSpec {
+                key_prefix: 0,
+                store: StoreKind::Indexed,
+                variants: false,
+                key_pad: 0,
+            },
+            dedup: false,
+            aux_seed: rng.next_u64(),
+            opts: Default::default(),
+        };
+        out.push((UNREADABLE_STORE_IMAGE.to_string(), logical));
     }
     if tier == Tier::Thorough {
         // seeded larger images
